@@ -11,6 +11,9 @@ MASKS = ['***', 'XXXX', '<hidden>', 'a\\b', '\\1', '\\g<2>$']
 
 def run(ctx):
     from oslo_utils import strutils
+    from vf import purity
+    _rec = purity.Recorder(strutils, ['mask_password'], every=1)
+    _rec.__enter__()
     quick = ctx.quick
     ctx.assumptions += [
         'secrets never contain a quote character and never start or end with white space (the renderings cannot carry that)',
@@ -96,6 +99,8 @@ def run(ctx):
                           'message without any sanitize key changed: %r -> %r' % (text, strutils.mask_password(text)))
     ctx.cov['evaluations'] += n2
     ctx.stage('no-key-identity', messages=n2)
+    _rec.__exit__()
+    _rec.replay(ctx, 'c04')
     # binding self-test: a key dropped from the list must be exposed
     saved = list(strutils._SANITIZE_KEYS)
     try:
